@@ -197,9 +197,14 @@ def same_value(a, b):
     if isinstance(a, bool) or isinstance(b, bool):
         return False
     try:
-        return float(a) == float(b)
+        fa, fb = float(a), float(b)
     except (TypeError, ValueError):
         return False
+    if fa == fb:
+        return True
+    if cbi.APPROX[0]:
+        return abs(fa - fb) <= 1e-6 * max(1.0, abs(fa), abs(fb))
+    return False
 
 
 def print_stream(events):
